@@ -540,7 +540,9 @@ fn step<'b, 'a>(st: &mut St, s: &mut SK<'b, 'a>, m: &mut String, op: &SOp) -> Op
     let exp = model_apply(&mut m2, op);
     let mut part = None;
     let is_fixed = matches!(s, SK::Fixed(_));
-    let split_id = |id: &str| -> String { if matches!(op, SOp::SplitOff(_)) { id.replace("C09/", "C16/str-") } else { id.to_string() } };
+    // split_off belongs to C09 (string semantics, boundary panics) and to C16 (exact partition): the id follows the run
+    let split_mix = st.split_mix;
+    let split_id = |id: &str| -> String { if split_mix && matches!(op, SOp::SplitOff(_)) { id.replace("C09/", "C16/str-") } else { id.to_string() } };
     match real {
         Err(p) => {
             if p.is::<Marker>() && injected {
@@ -1023,6 +1025,10 @@ fn run_mut<'a>(st: &mut St, arena: &mut (dyn MutBumpAllocatorCoreScope<'a> + 'a)
 }
 
 impl Engine for StrEngine {
+    fn owns(&self, prop: &str, oracle: &str) -> bool {
+        // a wrong split_off is wrong string behaviour (C09) as well as an inexact partition (C16)
+        oracle.starts_with(prop) || oracle.starts_with("panic") || oracle.starts_with("crash") || (prop == "C09" && oracle.starts_with("C16/str-"))
+    }
     fn name(&self) -> &'static str {
         "C/strings"
     }
